@@ -130,6 +130,30 @@ def run(chk):
         for dia, texts in special.items():
             for t in texts:
                 jobs.append({"text": t, "dialect": dia, "silent": False})
+        # inputs of repaired escapes stay in (KF-C10-8, KF-C10-9)
+        for t, dia in [("insert into x select (select max(q.a) from (select 1 as a) q) as m from t1", "ansi"),
+                       ("insert into x select (select max(q.a) from (select 1 as a) q) as m from t1", "sparksql"),
+                       ("update only t set a = b", "postgres"), ("update only t set a = s.b from s where t.k in (select k from r)", "postgres")]:
+            jobs.append({"text": t, "dialect": dia, "silent": False})
+        # valid column-level statements from Col.tla (every statement kind, random expression trees) under random dialects
+        from . import c02
+        from .. import render_col
+        gcol = chk.tlc("Col", c02.cfg(chk, "gencol", Emit=True, MaxRels=3, MaxItems=3, MaxRefs=2, TAliases={"x", "y"}, SAliases={"u", "v"}, WithUnion=True,
+                                      WithLiteral=True, WithForeign=True, invariants=["EmitCase"]),
+                       "generate: valid column-level statements from Col.tla", workers=1, coverage=False,
+                       simulate="num=%d" % (1500 if quick else 20000), depth=12, seed=chk.seed + 3, timeout=6000)
+        seen = set()
+        for cc in gcol.cases("CASE"):
+            k = str(cc["prog"])
+            if k in seen:
+                continue
+            seen.add(k)
+            try:
+                t = render_col.render(cc["prog"], form1="tree:%d" % rnd.randrange(1 << 30), form2="tree:%d" % rnd.randrange(1 << 30),
+                                      cte=rnd.random() < 0.3, join=rnd.choice(["join", "left join", "comma"]))
+            except Exception:  # noqa
+                continue
+            jobs.append({"text": t, "dialect": rnd.choice(["ansi"] + dialects), "silent": False})
         # dialect-specific statements of the corpus under every other dialect
         spec = [c for c in corpus if c["dialect"] != "ansi"]
         rnd.shuffle(spec)
